@@ -234,7 +234,10 @@ func Main(args []string) {
 			// (thousands of events with call paths of depth 1000) are not shipped to Coq
 			spun := out.Steps >= c.Prog.Cfg.MaxCall-1 // probe lines printed
 			obs.Count(fmt.Sprintf("cyclic-spun:%v", spun))
-			if spun && !out.Overrun && out.Result != "(RErr (ECode 204))" && out.Result != "(RErr (ETaskRun None))" {
+			// a cycle ended by the call limit surfaces as 204 / 201 - unless the error is swallowed on its way
+			// up: errors of deferred calls never change the outcome, ignore_error drops exit-status errors
+			swallowed := out.Result == "ROk" && c.Prog.canSwallowErrors()
+			if spun && !out.Overrun && !swallowed && out.Result != "(RErr (ECode 204))" && out.Result != "(RErr (ETaskRun None))" {
 				obs.ImplFails = append(obs.ImplFails, common.ImplFail{Case: i, Kind: "cycle-wrong-result", Msg: out.Result + " " + out.ResultStr})
 			}
 			obs.Count("cyclic-result:" + out.Result)
